@@ -82,28 +82,32 @@ func ruleCaretAlign(p *Prog, r *Result) {
 		return
 	}
 	// the caret loop: `for i := 0; i < E; i++ { ret += " " }` -- the loop whose body appends a one-blank constant
-	var E ssa.Value
-	for _, L := range naturalLoops(fn) {
-		blank := false
-		for b := range L.Body {
-			for _, in := range b.Instrs {
-				if bo, ok := in.(*ssa.BinOp); ok && bo.Op == token.ADD {
-					if s, ok := constString(bo.Y); ok && s == " " {
-						blank = true
-					}
-				}
+	E := blankLoopBound(p, fn)
+	if E == nil {
+		// the blanks may come from a helper: a package function with one int parameter that appends a blank
+		// per iteration up to that parameter, or strings.Repeat(" ", n)
+		allInstrs(fn, func(in ssa.Instruction) {
+			c, ok := in.(*ssa.Call)
+			if !ok || E != nil {
+				return
 			}
-		}
-		if !blank {
-			continue
-		}
-		if f := ifOf(L.Header); f != nil {
-			if bo, ok := f.Cond.(*ssa.BinOp); ok && bo.Op == token.LSS {
-				if ph, ok := bo.X.(*ssa.Phi); ok && ph.Block() == L.Header {
-					E = bo.Y
-				}
+			g := c.Call.StaticCallee()
+			if g == nil {
+				return
 			}
-		}
+			if p.qualName(g) == "strings.Repeat" && len(c.Call.Args) == 2 {
+				if sp, ok := constString(c.Call.Args[0]); ok && sp == " " {
+					E = c.Call.Args[1]
+				}
+				return
+			}
+			if !p.InPkg(g) || len(g.Params) != 1 || len(c.Call.Args) != 1 {
+				return
+			}
+			if bound := blankLoopBound(p, g); bound != nil && bound == ssa.Value(g.Params[0]) {
+				E = c.Call.Args[0]
+			}
+		})
 	}
 	if E == nil {
 		r.undecided("anchor: the caret loop (`i < errPos`, appending blanks) was not found in outputQueryAndErrPos")
@@ -274,6 +278,46 @@ func ruleCaretAlign(p *Prog, r *Result) {
 	r.note("window_ways_cut_left", ncut)
 }
 
+// blankLoopBound: the bound E of a loop `for i := 0; i < E; i++` whose body appends a one-blank constant
+// (or strings.Repeat(" ", E)).
+func blankLoopBound(p *Prog, fn *ssa.Function) ssa.Value {
+	var E ssa.Value
+	for _, L := range naturalLoops(fn) {
+		blank := false
+		for b := range L.Body {
+			for _, in := range b.Instrs {
+				if bo, ok := in.(*ssa.BinOp); ok && bo.Op == token.ADD {
+					if s, ok := constString(bo.Y); ok && s == " " {
+						blank = true
+					}
+				}
+			}
+		}
+		if !blank {
+			continue
+		}
+		if f := ifOf(L.Header); f != nil {
+			if bo, ok := f.Cond.(*ssa.BinOp); ok && bo.Op == token.LSS {
+				if ph, ok := bo.X.(*ssa.Phi); ok && ph.Block() == L.Header {
+					E = bo.Y
+				}
+			}
+		}
+	}
+	if E == nil {
+		allInstrs(fn, func(in ssa.Instruction) {
+			if c, ok := in.(*ssa.Call); ok {
+				if g := c.Call.StaticCallee(); g != nil && p.qualName(g) == "strings.Repeat" && len(c.Call.Args) == 2 {
+					if sp, ok := constString(c.Call.Args[0]); ok && sp == " " {
+						E = c.Call.Args[1]
+					}
+				}
+			}
+		})
+	}
+	return E
+}
+
 // substPhi: the value v has on edge k into block b when v is a phi of b (other values are unchanged on that edge).
 func substPhi(v ssa.Value, b *ssa.BasicBlock, k int) ssa.Value {
 	if ph, ok := v.(*ssa.Phi); ok && ph.Block() == b {
@@ -371,13 +415,13 @@ func ruleNumCombo(p *Prog, r *Result) {
 			for _, rk := range []string{"int", "float"} {
 				var bad []string
 				for oi, opc := range ops {
-					target := fn
 					as := &assumption{p: p}
+					as.ignoreRet = func(f *ssa.Function, ret *ssa.Return) bool { return zeroGuarded(ret) }
 					as.leaf = func(f *ssa.Function, v ssa.Value, bound map[*ssa.Parameter]string) (aval, bool) {
 						if s, ok := constString(v); ok {
 							return aval{kind: 1, i: strCode(s)}, true
 						}
-						if f == target && v == ssa.Value(opParam) {
+						if pa, ok := v.(*ssa.Parameter); ok && bound[pa] == "op" {
 							return aval{kind: 1, i: opc}, true
 						}
 						return aval{}, false
@@ -402,7 +446,7 @@ func ruleNumCombo(p *Prog, r *Result) {
 						}
 						return ""
 					}
-					res := as.run(fn, map[*ssa.Parameter]string{operands[0]: lk, operands[1]: rk})
+					res := as.run(fn, map[*ssa.Parameter]string{operands[0]: lk, operands[1]: rk, opParam: "op"})
 					for _, ret := range res.rets {
 						if len(ret.Results) == 0 {
 							continue
@@ -411,16 +455,7 @@ func ruleNumCombo(p *Prog, r *Result) {
 						if e.kind == 3 && e.isNil == abTrue {
 							continue
 						}
-						zeroGuard := false
-						for _, a := range dominatingAtoms(ret.Block()) {
-							if a.Op != token.EQL {
-								continue
-							}
-							if c, ok := a.Y.(*ssa.Const); ok && c.Value != nil && (c.Value.Kind() == constant.Int || c.Value.Kind() == constant.Float) && constant.Sign(c.Value) == 0 {
-								zeroGuard = true
-							}
-						}
-						if !zeroGuard {
+						if !zeroGuarded(ret) {
 							bad = append(bad, fmt.Sprintf("%q at %s", opNames[oi], p.InstrPos(ret)))
 						}
 					}
@@ -538,4 +573,310 @@ func ruleTwinUse(p *Prog, r *Result) {
 		}
 	}
 	r.floor("twin classifications of two operands", n, 3)
+}
+
+// ---------------- ERRFRESH, ASTFRESH ----------------
+
+func init() {
+	register("ERRFRESH", "positional errors are values of their own: BindQuery / SetPadding write into the error, so every *SyntaxError / *ExecuteError is allocated where it is reported - no constructor call or literal of these types in a package initialiser (a shared sentinel would carry one statement's query text and padding into another statement's message), and no package-level variable of these types", ruleErrFresh)
+	register("ASTFRESH", "every plan is built from a tree of its own: each successful return of (*Optimizer).init is dominated by a call of (*Parser).Parse whose result is what is stored into the optimizer's statement field (plans keep per-execution state in the tree: aggregate results, folded constants)", ruleAstFresh)
+}
+
+func ruleErrFresh(p *Prog, r *Result) {
+	isPosErr := func(t types.Type) bool {
+		n := typeName(deref(t))
+		return n == "SyntaxError" || n == "ExecuteError"
+	}
+	nsites := 0
+	perFn := map[*ssa.Function]int{}
+	var order []*ssa.Function
+	for _, fn := range p.Funcs {
+		allInstrs(fn, func(in ssa.Instruction) {
+			hit := false
+			switch x := in.(type) {
+			case *ssa.Call:
+				if g := x.Call.StaticCallee(); g != nil && (g.Name() == "NewSyntaxError" || g.Name() == "NewExecuteError") && p.InPkg(g) {
+					hit = true
+				}
+			case *ssa.Alloc:
+				if x.Heap && isPosErr(x.Type()) {
+					hit = true
+				}
+			}
+			if hit {
+				if _, ok := perFn[fn]; !ok {
+					order = append(order, fn)
+				}
+				perFn[fn]++
+				nsites++
+			}
+		})
+	}
+	for _, fn := range order {
+		isInit := fn.Synthetic != "" || fn.Name() == "init" || strings.HasPrefix(fn.Name(), "init#")
+		r.add(!isInit, p.FName(fn), p.Pos(fn.Pos()), fmt.Sprintf("%d positional error(s) built here; a package initialiser would make them shared between statements", perFn[fn]))
+	}
+	for _, m := range p.SPkg.Members {
+		g, ok := m.(*ssa.Global)
+		if !ok {
+			continue
+		}
+		if isPosErr(deref(g.Type())) {
+			r.hit("global|"+g.Name(), p.Pos(g.Pos()), "package-level variable of a positional error type")
+		}
+	}
+	r.floor("positional error construction sites", nsites, 20)
+}
+
+func ruleAstFresh(p *Prog, r *Result) {
+	fn := p.MethodByName("Optimizer", "init")
+	parse := p.MethodByName("Parser", "Parse")
+	if fn == nil || parse == nil {
+		r.undecided("anchor: (*Optimizer).init / (*Parser).Parse not found")
+		return
+	}
+	var calls []*ssa.Call
+	allInstrs(fn, func(in ssa.Instruction) {
+		if c := isStaticCallTo(in, parse); c != nil {
+			calls = append(calls, c)
+		}
+	})
+	n := 0
+	for _, b := range fn.Blocks {
+		ret := retOf(b)
+		if ret == nil || len(ret.Results) == 0 {
+			continue
+		}
+		if !isNilConst(retVal(ret, len(ret.Results)-1)) {
+			if _, isPhi := retVal(ret, len(ret.Results)-1).(*ssa.Phi); !isPhi {
+				continue
+			}
+		}
+		n++
+		dom := false
+		for _, c := range calls {
+			if c.Block().Dominates(b) {
+				dom = true
+			}
+		}
+		r.add(dom, fmt.Sprintf("(*Optimizer).init|return#%d", n), p.InstrPos(ret), "a successful return of the optimizer's init is dominated by a fresh Parse of the query")
+	}
+	// what is stored into the statement field is the parse result
+	stored := 0
+	allInstrs(fn, func(in ssa.Instruction) {
+		st, ok := in.(*ssa.Store)
+		if !ok {
+			return
+		}
+		o, f, _, ok := fieldOfAddr(st.Addr)
+		if !ok || o == nil || o.Obj().Name() != "Optimizer" || f != "stmt" {
+			return
+		}
+		stored++
+		fromParse := false
+		backward(st.Val, func(x ssa.Value) bool {
+			if c, ok := x.(*ssa.Call); ok && c.Call.StaticCallee() == parse {
+				fromParse = true
+				return false
+			}
+			return true
+		})
+		r.add(fromParse, fmt.Sprintf("(*Optimizer).init|stmt-store#%d", stored), p.InstrPos(st), "the statement the plan is built from is the result of this call's Parse")
+	})
+	r.floor("successful returns of (*Optimizer).init", n, 1)
+	r.floor("stores to Optimizer.stmt in init", stored, 1)
+}
+
+// ---------------- ANDORFOLD ----------------
+
+func init() {
+	register("ANDORFOLD", "the Boolean simplifier follows the truth table: tryOptimizeAndOr is evaluated abstractly for each operator in {&, |} and each operand in {literal true, literal false, not a literal}; the node it returns must be the other operand (identity element), a fresh literal of the absorbing value, the literal of the conjunction/disjunction (two literals), or the unchanged node (no literal)", ruleAndOrFold)
+}
+
+func ruleAndOrFold(p *Prog, r *Result) {
+	fn := p.MethodByName("ExpressionOptimizer", "tryOptimizeAndOr")
+	if fn == nil {
+		r.undecided("anchor: (*ExpressionOptimizer).tryOptimizeAndOr not found")
+		return
+	}
+	andOp, ok1 := p.constOf("And")
+	orOp, ok2 := p.constOf("Or")
+	if !ok1 || !ok2 {
+		r.undecided("anchor: operators And / Or not found")
+		return
+	}
+	// which operand does a value come from: e.Left / e.Right (possibly through a type assertion)
+	var side func(v ssa.Value, d int) string
+	side = func(v ssa.Value, d int) string {
+		if d > 6 {
+			return ""
+		}
+		switch x := v.(type) {
+		case *ssa.Extract:
+			return side(x.Tuple, d+1)
+		case *ssa.TypeAssert:
+			return side(x.X, d+1)
+		case *ssa.ChangeInterface:
+			return side(x.X, d+1)
+		case *ssa.MakeInterface:
+			return side(x.X, d+1)
+		}
+		if o, f, _, ok := loadedField(v); ok && o != nil && o.Obj().Name() == "BinaryOpExpr" && (f == "Left" || f == "Right") {
+			return f
+		}
+		return ""
+	}
+	// classify the returned node
+	var classify func(v ssa.Value, d int) string
+	classify = func(v ssa.Value, d int) string {
+		if d > 6 {
+			return "?"
+		}
+		if s := side(v, 0); s != "" {
+			return s
+		}
+		switch x := v.(type) {
+		case *ssa.MakeInterface:
+			return classify(x.X, d+1)
+		case *ssa.ChangeInterface:
+			return classify(x.X, d+1)
+		case *ssa.Alloc:
+			if typeName(deref(x.Type())) != "BoolExpr" {
+				return "?"
+			}
+			for _, ref := range *x.Referrers() {
+				if fa, ok := ref.(*ssa.FieldAddr); ok {
+					if _, f, _, _ := fieldOfAddr(fa); f == "Bool" {
+						for _, r2 := range *fa.Referrers() {
+							if st, ok := r2.(*ssa.Store); ok {
+								if bv, isB := constBool(st.Val); isB {
+									return fmt.Sprint(bv)
+								}
+							}
+						}
+					}
+				}
+			}
+			return "?"
+		case *ssa.Parameter:
+			return "same"
+		case *ssa.Extract:
+			if ta, ok := x.Tuple.(*ssa.TypeAssert); ok {
+				if _, isP := ta.X.(*ssa.Parameter); isP {
+					return "same"
+				}
+			}
+		case *ssa.TypeAssert:
+			if _, isP := x.X.(*ssa.Parameter); isP {
+				return "same"
+			}
+		}
+		return "?"
+	}
+	kinds := []string{"true", "false", "expr"}
+	for _, op := range []struct {
+		name string
+		code int64
+	}{{"&", andOp}, {"|", orOp}} {
+		for _, lk := range kinds {
+			for _, rk := range kinds {
+				want := "same"
+				isAnd := op.name == "&"
+				switch {
+				case lk != "expr" && rk != "expr":
+					l, rr := lk == "true", rk == "true"
+					if isAnd {
+						want = fmt.Sprint(l && rr)
+					} else {
+						want = fmt.Sprint(l || rr)
+					}
+				case lk != "expr":
+					if (lk == "true") == isAnd {
+						want = "Right" // identity element
+					} else {
+						want = lk // absorbing
+					}
+				case rk != "expr":
+					if (rk == "true") == isAnd {
+						want = "Left"
+					} else {
+						want = rk
+					}
+				}
+				kindOf := map[string]string{"Left": lk, "Right": rk}
+				as := &assumption{p: p}
+				as.leaf = func(f *ssa.Function, v ssa.Value, bound map[*ssa.Parameter]string) (aval, bool) {
+					if f != fn {
+						return aval{}, false
+					}
+					if o, fl, base, ok := loadedField(v); ok && o != nil {
+						if o.Obj().Name() == "BinaryOpExpr" && fl == "Op" {
+							return aval{kind: 1, i: op.code}, true
+						}
+						if o.Obj().Name() == "BoolExpr" && fl == "Bool" {
+							if s := side(base, 0); s != "" && kindOf[s] != "expr" {
+								if kindOf[s] == "true" {
+									return aval{kind: 2, b: abTrue}, true
+								}
+								return aval{kind: 2, b: abFalse}, true
+							}
+						}
+					}
+					return aval{}, false
+				}
+				as.typeTest = func(f *ssa.Function, ta *ssa.TypeAssert, bound map[*ssa.Parameter]string) (abool, bool) {
+					if f != fn {
+						return abBoth, false
+					}
+					if _, isP := ta.X.(*ssa.Parameter); isP && typeName(deref(ta.AssertedType)) == "BinaryOpExpr" {
+						return abTrue, true
+					}
+					if s := side(ta.X, 0); s != "" {
+						if typeName(deref(ta.AssertedType)) == "BoolExpr" && kindOf[s] != "expr" {
+							return abTrue, true
+						}
+						return abFalse, true
+					}
+					return abBoth, false
+				}
+				as.bind = func(*ssa.Function, ssa.Value, map[*ssa.Parameter]string) string { return "" }
+				res := as.run(fn, map[*ssa.Parameter]string{})
+				var got []string
+				for _, ret := range res.rets {
+					if len(ret.Results) == 0 {
+						continue
+					}
+					c := classify(retVal(ret, 0), 0)
+					// a fresh literal built for one side of a two-literal fold still has to carry the right value
+					got = append(got, c)
+				}
+				sort.Strings(got)
+				okv := len(got) > 0
+				for _, g := range got {
+					if g != want {
+						// returning the operand itself is as good as a literal of its value
+						if v, isSide := kindOf[g]; isSide && v == want {
+							continue
+						}
+						okv = false
+					}
+				}
+				r.add(okv, fmt.Sprintf("%s|left=%s,right=%s", map[string]string{"&": "and", "|": "or"}[op.name], lk, rk), p.Pos(fn.Pos()), fmt.Sprintf("(%s %s %s) must simplify to %s; reachable returns give %v", lk, op.name, rk, want, got))
+			}
+		}
+	}
+}
+
+
+// zeroGuarded: the return lies behind a test `x == 0` (division by zero is a data error, not an operand-type error).
+func zeroGuarded(ret *ssa.Return) bool {
+	for _, a := range dominatingAtoms(ret.Block()) {
+		if a.Op != token.EQL {
+			continue
+		}
+		if c, ok := a.Y.(*ssa.Const); ok && c.Value != nil && (c.Value.Kind() == constant.Int || c.Value.Kind() == constant.Float) && constant.Sign(c.Value) == 0 {
+			return true
+		}
+	}
+	return false
 }
